@@ -341,7 +341,15 @@ Job gen_job(Src &s, Ctx &c, bool *nt, const char **tag) {
             *nt = (useN ? nbytes : src.size()) >= size; *tag = "bounded_copy";
             return [src, size, nbytes, useN, shift](Ctx &k) { chk_copy(k, src, size, nbytes, useN); if (shift) chk_copy_overlap(k, src, shift); }; }
         case 4: { std::string x = gen_str(s, "ab<>[]", 6, 40), st = gen_str(s, "<[a", 3, 2), en = gen_str(s, ">]b", 3, 2); c.op("dup_between(%s,%s,%s)", hexs(x).c_str(), hexs(st).c_str(), hexs(en).c_str()); *nt = x.find(st) != std::string::npos; *tag = "dup_between"; return [x, st, en](Ctx &k) { chk_between(k, x, st, en); }; }
-        case 5: { std::string x = gen_str(s, A_TXT, 17, 60); c.op("rev/upper/lower on %s", hexs(x).c_str()); *nt = x.size() >= 2; *tag = "rev_case"; return [x](Ctx &k) { chk_revcase(k, x); }; }
+        case 5: {
+            std::string x;
+            if (s.boolean()) x = gen_str(s, A_TXT, 17, 60);
+            else {   // every byte value, weighted towards the edges of the letter ranges and the bytes whose 7-bit image lies near them
+                static const unsigned char edge[] = {'@', 'A', 'Z', '[', '`', 'a', 'z', '{', 0x7f, 0x80, 0xc0, 0xc1, 0xda, 0xdb, 0xe0, 0xe1, 0xfa, 0xfb, 0xff, 0x01};
+                size_t len = (size_t)s.range(0, 40);
+                for (size_t i = 0; i < len; i++) { int k = (int)s.pick({5, 3, 2}); unsigned char ch = k == 0 ? edge[s.range(0, (long)sizeof(edge) - 1)] : k == 1 ? (unsigned char)s.range(1, 255) : (unsigned char)("azAZ"[s.range(0, 3)]); x.push_back((char)ch); }
+            }
+            c.op("rev/upper/lower on %s", hexs(x).c_str()); *nt = x.size() >= 2; *tag = "rev_case"; return [x](Ctx &k) { chk_revcase(k, x); }; }
         case 6: { std::string x = gen_str(s, "ab,|: ", 6, 60), d = gen_str(s, ",|:", 3, 3); c.op("tok(%s, delimiters %s)", hexs(x).c_str(), hexs(d).c_str()); *nt = x.find_first_of(d) != std::string::npos && !d.empty(); *tag = "tokenizer"; return [x, d](Ctx &k) { chk_tok(k, x, d); }; }
         case 7: { std::string x = gen_str(s, "ab\n\r ", 5, 120); size_t size = (size_t)s.range(2, 40); c.op("gets(%s, size %zu)", hexs(x).c_str(), size); *nt = x.find_first_of("\r\n") != std::string::npos; *tag = "gets"; return [x, size](Ctx &k) { chk_gets(k, x, size); }; }
         default: {
@@ -399,6 +407,9 @@ bool vf_enumerate(Ctx &c, EnumStats &st) {
           long long v = sg * ce + dlt; if (v < -2147483648LL || v > 2147483647LL) continue;
           if (!mine()) continue;
           c.trace = "enumerated: comma_number " + std::to_string(v); chk_comma(c, (int)v); st.evaluations++; if (v >= 1000 || v <= -1000) st.nontrivial++; } }
+    // case conversion and reversal on every ordered pair of non-NUL bytes, placed at each of the 8 offsets of a
+    // word-sized block inside a 24-byte string of letters (a word-at-a-time implementation carries between neighbours)
+    for (int a = 1; a < 256; a++) { if (!mine()) continue; for (int b = 1; b < 256; b++) { int off = (a * 7 + b) & 7; std::string x = "qQzZaAmMzZqQaAmMzZqQaAmM"; x[(size_t)(8 + off)] = (char)a; x[(size_t)(8 + off + 1)] = (char)b; c.trace = "enumerated: upper/lower/rev with bytes " + hexs(x.substr(8 + (size_t)off, 2)) + " at offset " + std::to_string(8 + off); chk_revcase(c, x); } st.evaluations++; st.nontrivial++; }
     // replace sizes its output buffer from a worst-case bound (source length x replacement length):
     // inputs of a few tens of KiB whose bound passes 2^31 / 2^32 while the real result stays small
     if (shard == 0) {
